@@ -106,6 +106,33 @@ func Harness_C16_runParallel() {
 	vReach("done")
 }
 
+// Harness_C16_sharedOptions: one options value configures two fetchers that run one after the
+// other (a caller that scans the same range twice, e.g. for certificates and for precertificates):
+// the options say which range is scanned, so each of the two runs delivers every index of
+// [StartIndex, EndIndex) exactly once -- a scan does not move the configured start.
+//
+//verif:opt sched=1 race=1 preempt=1 thorough.preempt=2 maxpaths=400000 thorough.maxpaths=4000000 decisions=3000 steps=20000000 reach=done
+func Harness_C16_sharedOptions() {
+	n := 3
+	log, sink, base := c16ParSetup(n)
+	for i := range log.fail {
+		log.fail[i] = false
+	}
+	opts := &FetcherOptions{BatchSize: 2, ParallelFetch: 1 + vChoice("fetchers", 2), StartIndex: base}
+	if vChoice("end-given", 2) == 1 {
+		opts.EndIndex = base + int64(n)
+	}
+	for run := 1; run <= 2; run++ {
+		err := NewFetcher(log, opts).Run(context.Background(), sink.deliver)
+		vAssert(err == nil, "Run completes")
+		vAssert(!sink.bad, "only indices of the range, each with the bytes the log returned for it")
+		for k := 0; k < n; k++ {
+			vAssert(sink.count[k] == run, "every run on the same options delivers every index of the configured range exactly once")
+		}
+	}
+	vReach("done")
+}
+
 // Harness_C16_stop: Stop arrives at an arbitrary moment: Run still returns (no goroutine is left
 // blocked), nothing is delivered twice, and what was delivered is a union of whole answered requests.
 //
@@ -248,8 +275,8 @@ func (l *c16GrowingLog) GetSTH(context.Context) (*ct.SignedTreeHead, error) {
 
 // Harness_C16_continuous: continuous mode. The log first publishes 2 entries, then (after an
 // unchanged or a stale, smaller head) 4; the fetcher carries on with the newly published entries without gaps or
-// repeats, and stops when Stop is called after index 3 was delivered: every index of [0, 4)
-// reaches the callback exactly once, nothing else does, Run returns.
+// repeats, and stops when Stop is called after index 3 was delivered: every index of [start, 4)
+// (start = 0, or 3: beyond the first tree head) reaches the callback exactly once, nothing else does, Run returns.
 //
 //verif:opt sched=1 race=1 preempt=1 thorough.preempt=2 maxpaths=400000 thorough.maxpaths=4000000 decisions=8000 steps=40000000 reach=stopped
 func Harness_C16_continuous() {
@@ -263,15 +290,18 @@ func Harness_C16_continuous() {
 	}
 	sink := &c16Sink{count: make([]int, n)}
 	all := make(chan struct{})
-	total := 0
-	f := NewFetcher(log, &FetcherOptions{BatchSize: 2, ParallelFetch: 1 + vChoice("fetchers", 2), Continuous: true})
+	total, closed := 0, false
+	// the scan starts at 0, or at an index the log has not reached yet when the scan begins
+	start := 3 * vChoice("start-beyond-first-head", 2)
+	f := NewFetcher(log, &FetcherOptions{BatchSize: 2, ParallelFetch: 1 + vChoice("fetchers", 2), Continuous: true, StartIndex: int64(start)})
 	done := make(chan error, 1)
 	go func() {
 		done <- f.Run(context.Background(), func(b EntryBatch) {
 			sink.deliver(b)
 			sink.mu.Lock()
 			total += len(b.Entries)
-			if total == n {
+			if total >= n-start && !closed {
+				closed = true
 				close(all)
 			}
 			sink.mu.Unlock()
@@ -285,7 +315,11 @@ func Harness_C16_continuous() {
 	defer sink.mu.Unlock()
 	vAssert(!sink.bad, "only published indices, each with its bytes")
 	for k := 0; k < n; k++ {
-		vAssert(sink.count[k] == 1, "continuous mode carries on with newly published entries without gaps or repeats")
+		if k < start {
+			vAssert(sink.count[k] == 0, "nothing below the start index is delivered, also when the log was smaller than the start index at first")
+		} else {
+			vAssert(sink.count[k] == 1, "continuous mode carries on with newly published entries without gaps or repeats")
+		}
 	}
 	vReach("stopped")
 }
